@@ -35,7 +35,11 @@ for pid in sorted(os.listdir(root)):
             shutil.rmtree(repo, ignore_errors=True)
             subprocess.check_call(["cp", "-r", "/repo", repo])
             subprocess.check_call(["git", "-C", repo, "checkout", "-q", "--", "."])
-            subprocess.check_call(["git", "-C", repo, "apply", patch])
+            if subprocess.call(["git", "-C", repo, "apply", patch]) != 0:
+                print("%-4s %-28s PATCH DOES NOT APPLY to the current tree (regenerate it: tools/refresh_seeds.py)" % (pid, name), flush=True)
+                shutil.rmtree(repo, ignore_errors=True)
+                rows.append((pid, name, False, [], 0.0, {}))
+                continue
             env["HAWK_REPO"] = repo
         try:
             meta = json.load(open(os.path.join(d, "meta.json"))) if os.path.exists(os.path.join(d, "meta.json")) else {}
